@@ -285,7 +285,7 @@ func init() {
 				if sig != "" {
 					for i := 0; i < 4; i++ {
 						if s2, _, _ := c14One(pc); s2 != sig {
-							w.Notes = append(w.Notes, "HARNESS ERROR: C14 violation did not reproduce: "+pc.Case.Note)
+							w.Notes = append(w.Notes, "UNREPRODUCED: C14 violation did not reproduce: "+pc.Case.Note)
 							return
 						}
 					}
@@ -329,7 +329,7 @@ func init() {
 							if sig != "" {
 								for i := 0; i < 4; i++ {
 									if s2, _ := c14RunPair(p); s2 != sig {
-										w.Notes = append(w.Notes, "HARNESS ERROR: C14 history violation did not reproduce")
+										w.Notes = append(w.Notes, "UNREPRODUCED: C14 history violation did not reproduce")
 										return
 									}
 								}
